@@ -9,7 +9,13 @@
    not ask for progress (a poll that stops early is allowed); exact agreement with the model is the job of
    the correspondence check.
    Definitions only. *)
-Require Import V.Base.MachineInt V.Generated.GenConsts V.Model.LogBase V.Model.Descriptor V.Model.Reader V.Model.Image V.Oracle.C05Cases.
+Require Import V.Base.MachineInt.
+Require Import V.Generated.GenConsts.
+Require Import V.Model.LogBase.
+Require Import V.Model.Descriptor.
+Require Import V.Model.Reader.
+Require Import V.Model.Image.
+Require Import V.Oracle.C05Cases.
 Open Scope Z_scope.
 
 Definition is_abort (a : action) : bool := match a with Abort => true | _ => false end.
